@@ -206,6 +206,43 @@ def reads_of(bf, is_buf):
     return res
 
 
+_LEN_RE = None
+
+
+def canon_len(x):
+    """offsets as returned by off(): the length of the buffer under any of its names (`bytes.len()`, `self.bytes.len()`) becomes LEN"""
+    import re
+    if isinstance(x, tuple) and len(x) == 2 and isinstance(x[1], tuple):
+        return (x[0], tuple(sorted((re.sub(r'^len\(&\**arg\d+(\.[A-Za-z_0-9]+)*\)$', 'LEN', n), k) for n, k in x[1])))
+    return x
+
+
+def canon_reads(rd):
+    return [tuple(canon_len(y) for y in x) for x in rd]
+
+
+def reads_of_deep(pf, bf, is_buf, depth=2):
+    """reads_of, following calls that receive the whole buffer into small workspace helpers (`extract_mic(self.bytes)`): the helper's
+    reads of that parameter count as reads of the buffer. Lengths are canonical (LEN)."""
+    out = canon_reads(reads_of(bf, is_buf))
+    if depth <= 0:
+        return out
+    for bb, t in bf.calls():
+        cn = callee_name(t) or ''
+        if cn.split('::')[0].lstrip('<') not in ('lorawan', 'lorawan_device', 'lora_phy', 'lora_modulation'):
+            continue
+        bl = pf.prog.by_short.get(cn) or []
+        if len(bl) != 1 or bl[0].coroutine:
+            continue
+        for i, a in enumerate(t.args):
+            if is_buf(peel(term_of_operand(bf, a))):
+                sub = reads_of_deep(pf, pf.bf(bl[0]), lambda x, i=i: x == ('param', i + 1), depth - 1)
+                for x in sub:
+                    if x not in out:
+                        out.append(x)
+    return out
+
+
 # ---------------------------------------------------------------------------------------------- bit provenance on terms
 _W = {'u8': 8, 'u16': 16, 'u32': 32, 'u64': 64, 'usize': 64, 'i8': 8, 'i16': 16, 'i32': 32, 'i64': 64, 'isize': 64, 'bool': 1}
 
